@@ -1,139 +1,31 @@
-import BsVerif.Model.DqeVal
-/-! Lexical and round-trip lemmas for the DQE grammar mirror (`Model/Dqe.lean`). -/
+import BsVerif.Lemmas.DqeSlice
+/-! Round trip of the canonical printer through the grammar mirror, on the operator skeleton. -/
 namespace BsVerif.Dqe
-
-/-! ### characters -/
-
-theorem ne_of_class (p : Char → Bool) (c d : Char) (h : p c = true) (hd : p d = false) : c ≠ d := by
-  rintro rfl; simp [h] at hd
-
-theorem identCont_notWs (c : Char) (h : isIdentCont c = true) : isWs c = false := by
-  have hn : c.toNat = c.val.toNat := rfl
-  have ha : 'a'.val.toNat = 97 := rfl
-  have hz : 'z'.val.toNat = 122 := rfl
-  have hA : 'A'.val.toNat = 65 := rfl
-  have hZ : 'Z'.val.toNat = 90 := rfl
-  have h0 : '0'.val.toNat = 48 := rfl
-  have h9 : '9'.val.toNat = 57 := rfl
-  simp only [isIdentCont, isAlpha, isDigit, isWs, Bool.or_eq_true, Bool.and_eq_true, decide_eq_true_eq, beq_iff_eq,
-    Char.le_def, UInt32.le_iff_toNat_le, ne_eq, Bool.or_eq_false_iff, Bool.and_eq_false_iff, beq_eq_false_iff_ne,
-    decide_eq_false_iff_not, hn, ha, hz, hA, hZ, h0, h9] at h ⊢
-  rcases h with h | rfl
-  · omega
-  · decide
-
-theorem identStart_cont (c : Char) (h : isIdentStart c = true) : isIdentCont c = true := by
-  simp only [isIdentStart, isIdentCont, Bool.or_eq_true] at h ⊢
-  rcases h with h | h
-  · exact Or.inl (Or.inl h)
-  · exact Or.inr h
-
-/-! ### white space, symbols -/
-
-theorem skipWs_cons (c : Char) (s : Str) (h : isWs c = false) : skipWs (c :: s) = c :: s := by
-  simp [skipWs, List.dropWhile, h]
-
-theorem skipWs_nil : skipWs [] = [] := rfl
-
-/-- the next character (if any) is not white space -/
-def startsNonWs : Str → Bool
-  | [] => true
-  | c :: _ => !isWs c
-
-theorem skipWs_id (s : Str) (h : startsNonWs s = true) : skipWs s = s := by
-  cases s with
-  | nil => rfl
-  | cons c r => exact skipWs_cons c r (by simpa [startsNonWs] using h)
-
-theorem sym_hit (c : Char) (s : Str) (hc : isWs c = false) : sym c (c :: s) = some (skipWs s) := by
-  simp [sym, skipWs_cons c s hc]
-
-theorem sym_miss (c x : Char) (s : Str) (hx : isWs x = false) (hne : x ≠ c) : sym c (x :: s) = none := by
-  simp [sym, skipWs_cons x s hx, hne]
-
-theorem sym_nil (c : Char) : sym c [] = none := rfl
-
-/-! ### identifiers -/
-
-def isIdentB : Str → Bool
-  | [] => false
-  | c :: cs => isIdentStart c && cs.all isIdentCont
-
-/-- the next character (if any) cannot continue an identifier -/
-def stopsIdent : Str → Bool
-  | [] => true
-  | c :: _ => !isIdentCont c
-
-theorem takeWhile_append_stop (p : Char → Bool) (a b : Str) (ha : a.all p = true)
-    (hb : ∀ c r, b = c :: r → p c = false) : (a ++ b).takeWhile p = a ∧ (a ++ b).dropWhile p = b := by
-  induction a with
-  | nil =>
-    cases b with
-    | nil => simp
-    | cons c r => simp [hb c r rfl]
-  | cons x xs ih =>
-    simp only [List.all_cons, Bool.and_eq_true] at ha
-    simp [ha.1, ih ha.2]
-
-theorem scanIdent_append (n rest : Str) (hn : isIdentB n = true) (hr : stopsIdent rest = true) :
-    scanIdent (n ++ rest) = some (n, rest) := by
-  cases n with
-  | nil => simp [isIdentB] at hn
-  | cons c cs =>
-    simp only [isIdentB, Bool.and_eq_true] at hn
-    have := takeWhile_append_stop isIdentCont cs rest hn.2 (by
-      intro x r hx; subst hx; simpa [stopsIdent] using hr)
-    simp [scanIdent, hn.1, this.1, this.2]
-
-/-- what may follow an atom or a postfix operator in canonical text: nothing, `.`, `[` or `)` -/
-def followPost : Str → Bool
-  | [] => true
-  | c :: _ => c == '.' || c == ')' || c == '['
-
-theorem followPost_facts (s : Str) (h : followPost s = true) :
-    startsNonWs s = true ∧ stopsIdent s = true ∧ stripPrefix [':', ':'] s = none := by
-  cases s with
-  | nil => simp [startsNonWs, stopsIdent, stripPrefix]
-  | cons c r =>
-    simp only [followPost, Bool.or_eq_true, beq_iff_eq] at h
-    rcases h with (rfl | rfl) | rfl <;> simp [startsNonWs, stopsIdent, stripPrefix] <;> decide
-
-theorem ident_head (n : Str) (hn : isIdentB n = true) : ∃ c cs, n = c :: cs ∧ isIdentStart c = true := by
-  cases n with
-  | nil => simp [isIdentB] at hn
-  | cons c cs => simp only [isIdentB, Bool.and_eq_true] at hn; exact ⟨c, cs, rfl, hn.1⟩
-
-theorem rustIdent_ident (n rest : Str) (hn : isIdentB n = true) (hr : followPost rest = true) :
-    rustIdent (n ++ rest) = some (n, rest) := by
-  obtain ⟨c, cs, rfl, hc⟩ := ident_head n hn
-  obtain ⟨h1, h2, h3⟩ := followPost_facts rest hr
-  have hws : isWs c = false := identCont_notWs c (identStart_cont c hc)
-  have hcolon : c ≠ ':' := ne_of_class isIdentStart c ':' hc (by decide)
-  have hsk : skipWs (c :: cs ++ rest) = c :: cs ++ rest := skipWs_cons c _ hws
-  have hsp : stripPrefix [':', ':'] (c :: cs ++ rest) = none := by
-    simp [stripPrefix, Ne.symm hcolon]
-  have hscan := scanIdent_append (c :: cs) rest hn h2
-  have htail : scanPathTail rest.length rest = ([], rest) := by
-    cases hl : rest.length with
-    | zero => simp [scanPathTail]
-    | succ k => simp [scanPathTail, h3]
-  unfold rustIdent
-  simp only [hsk, hsp, hscan, htail, List.append_nil, skipWs_id rest h1, List.nil_append]
-
 
 /-! ### postfix chain of fields over a variable -/
 
-def fieldsText : List Str → Str
+/-- postfix operators of the fragment: fields named by identifiers, slices with bounds below 2^64 -/
+def okPost : Post → Bool
+  | .field f => isIdentB f
+  | .slice l r => decide (l.getD 0 < 2 ^ 64) && decide (r.getD 0 < 2 ^ 64)
+  | .index _ => false
+
+def postText : Post → Str
+  | .field f => '.' :: f
+  | .slice l r => '[' :: printBound l ++ '.' :: '.' :: printBound r ++ [']']
+  | .index l => '[' :: printLit l ++ [']']
+
+def fieldsText : List Post → Str
   | [] => []
-  | f :: fs => '.' :: f ++ fieldsText fs
+  | p :: ps => postText p ++ fieldsText ps
 
-def chain (a : Dqe) (fs : List Str) : Dqe := fs.foldl (fun a f => Dqe.field a f) a
+def chain (a : Dqe) (ps : List Post) : Dqe := ps.foldl (fun a p => p.apply a) a
 
-theorem followPost_fieldsText (fs : List Str) (rest : Str) (hr : followPost rest = true) :
+theorem followPost_fieldsText (fs : List Post) (rest : Str) (hr : followPost rest = true) :
     followPost (fieldsText fs ++ rest) = true := by
   cases fs with
   | nil => simpa [fieldsText] using hr
-  | cons f fs => simp [fieldsText, followPost]
+  | cons f fs => cases f <;> simp [fieldsText, postText, followPost]
 
 theorem parsePost_field (f rest : Str) (hf : isIdentB f = true) (hr : followPost rest = true) :
     parsePost ('.' :: f ++ rest) = .ok (.field f) rest := by
@@ -163,8 +55,18 @@ theorem parsePost_stop (rest : Str) (hr : followExpr rest = true) : parsePost re
     simp only [followExpr, beq_iff_eq] at hr; subst hr
     simp [parsePost, sym_miss '.' ')' r (by decide) (by decide), sym_miss '[' ')' r (by decide) (by decide)]
 
-theorem parsePosts_fields (fs : List Str) (a : Dqe) (rest : Str) (k : Nat)
-    (hfs : fs.all isIdentB = true) (hr : followExpr rest = true) (hk : fs.length ≤ k) :
+theorem parsePost_ok (p : Post) (hp : okPost p = true) (rest : Str) (hr : followPost rest = true) :
+    parsePost (postText p ++ rest) = .ok p rest := by
+  cases p with
+  | field f => exact parsePost_field f rest (by simpa [okPost] using hp) hr
+  | slice l r =>
+    simp only [okPost, Bool.and_eq_true, decide_eq_true_eq] at hp
+    have := parsePost_slice l r hp.1 hp.2 rest hr
+    simpa [postText] using this
+  | index l => simp [okPost] at hp
+
+theorem parsePosts_fields (fs : List Post) (a : Dqe) (rest : Str) (k : Nat)
+    (hfs : fs.all okPost = true) (hr : followExpr rest = true) (hk : fs.length ≤ k) :
     parsePosts k a (fieldsText fs ++ rest) = .ok (chain a fs) rest := by
   induction fs generalizing a k with
   | nil =>
@@ -177,16 +79,16 @@ theorem parsePosts_fields (fs : List Str) (a : Dqe) (rest : Str) (k : Nat)
     | zero => simp at hk
     | succ k =>
       have hfol := followPost_fieldsText fs rest (followExpr_post rest hr)
-      have := parsePost_field f (fieldsText fs ++ rest) hfs.1 hfol
-      simp only [fieldsText, List.cons_append, List.append_assoc] at this ⊢
+      have := parsePost_ok f hfs.1 (fieldsText fs ++ rest) hfol
+      simp only [fieldsText, List.append_assoc] at this ⊢
       rw [parsePosts, this]
       simp only
-      exact ih (Dqe.field a f) k hfs.2 (by simpa using hk)
+      exact ih (f.apply a) k hfs.2 (by simpa using hk)
 
-theorem fieldsText_length (fs : List Str) : fs.length ≤ (fieldsText fs).length := by
+theorem fieldsText_length (fs : List Post) : fs.length ≤ (fieldsText fs).length := by
   induction fs with
   | nil => simp
-  | cons f fs ih => simp [fieldsText]; omega
+  | cons f fs ih => cases f <;> simp [fieldsText, postText] <;> omega
 
 
 /-! ### prefix operators -/
@@ -214,8 +116,8 @@ theorem parsePre_hit (p : Pre) (s : Str) : parsePre (p.char :: s) = some (p, ski
       sym_hit '~' s (by decide)]
 
 /-- the variable-and-fields chain, followed by the end or `)` -/
-theorem parseExpr_chain (f : Nat) (n : Str) (fs : List Str) (rest : Str)
-    (hn : isIdentB n = true) (hfs : fs.all isIdentB = true) (hr : followExpr rest = true) :
+theorem parseExpr_chain (f : Nat) (n : Str) (fs : List Post) (rest : Str)
+    (hn : isIdentB n = true) (hfs : fs.all okPost = true) (hr : followExpr rest = true) :
     parseExpr (f + 1) (n ++ fieldsText fs ++ rest) = .ok (chain (.var n) fs) rest := by
   obtain ⟨c, cs, rfl, hc⟩ := ident_head n hn
   have hws : isWs c = false := identCont_notWs c (identStart_cont c hc)
@@ -255,22 +157,22 @@ def chainOk : Dqe → Bool
   | .field e f => chainOk e && isIdentB f
   | _ => false
 
-theorem fieldsText_append (fs : List Str) (f : Str) : fieldsText (fs ++ [f]) = fieldsText fs ++ '.' :: f := by
+theorem fieldsText_append (fs : List Post) (f : Str) : fieldsText (fs ++ [.field f]) = fieldsText fs ++ '.' :: f := by
   induction fs with
-  | nil => simp [fieldsText]
+  | nil => simp [fieldsText, postText]
   | cons g gs ih => simp [fieldsText, ih]
 
 theorem chainOk_decomp (e : Dqe) (h : chainOk e = true) :
-    ∃ n fs, e = chain (.var n) fs ∧ isIdentB n = true ∧ fs.all isIdentB = true ∧
+    ∃ n fs, e = chain (.var n) fs ∧ isIdentB n = true ∧ fs.all okPost = true ∧
       printPost e = n ++ fieldsText fs ∧ printPre e = n ++ fieldsText fs := by
   induction e with
   | var n => exact ⟨n, [], rfl, by simpa [chainOk] using h, rfl, by simp [printPost, fieldsText], by simp [printPre, fieldsText]⟩
   | field e f ih =>
     simp only [chainOk, Bool.and_eq_true] at h
     obtain ⟨n, fs, he, hn, hfs, hp, _⟩ := ih h.1
-    refine ⟨n, fs ++ [f], ?_, hn, ?_, ?_, ?_⟩
-    · simp [chain, List.foldl_append, he]
-    · simp [List.all_append, hfs, h.2]
+    refine ⟨n, fs ++ [.field f], ?_, hn, ?_, ?_, ?_⟩
+    · simp [chain, List.foldl_append, he, Post.apply]
+    · simp [List.all_append, hfs, h.2, okPost]
     · simp [printPost, hp, fieldsText_append]
     · simp [printPre, hp, fieldsText_append]
   | _ => simp [chainOk] at h
@@ -303,10 +205,46 @@ theorem isIdentB_all (n : Str) (h : isIdentB n = true) : n.all isIdentCont = tru
     simp only [isIdentB, Bool.and_eq_true] at h
     simp [identStart_cont c h.1, h.2]
 
+theorem tidy_digits_append (n : Nat) (t : Str) (ht : tidy t = true) : tidy (natText n ++ t) = true := by
+  have h : ∀ ds : List Nat, (∀ d ∈ ds, d < 10) → tidy (ds.map digitChar ++ t) = true := by
+    intro ds
+    induction ds with
+    | nil => intro _; simpa using ht
+    | cons d ds ih =>
+      intro hd
+      have hf := digitChar_facts d (hd d (by simp))
+      have := ih (fun x hx => hd x (by simp [hx]))
+      simp [tidy, hf.2.2.2.1, hf.2.2.2.2, this]
+  exact h _ (toDigs_lt 10 (by omega) n n)
+
+theorem tidy_bound_append (b : Option Nat) (t : Str) (ht : tidy t = true) : tidy (printBound b ++ t) = true := by
+  cases b with
+  | none => simpa [printBound] using ht
+  | some n => exact tidy_digits_append n t ht
+
+theorem tidy_postText (p : Post) (hp : okPost p = true) (t : Str) (ht : tidy t = true) (hf : followPost t = true) :
+    tidy (postText p ++ t) = true := by
+  cases p with
+  | field f =>
+    have := tidy_ident_append f t (isIdentB_all f (by simpa [okPost] using hp)) ht
+    simp only [postText, List.cons_append, tidy, Bool.and_eq_true]
+    exact ⟨⟨by decide, by simp⟩, this⟩
+  | slice l r =>
+    have h1 : tidy (']' :: t) = true := by
+      simp only [tidy, Bool.and_eq_true]; exact ⟨⟨by decide, by simp⟩, ht⟩
+    have h2 := tidy_bound_append r _ h1
+    have h3 : tidy ('.' :: '.' :: (printBound r ++ ']' :: t)) = true := by
+      simp only [tidy, Bool.and_eq_true]; exact ⟨⟨by decide, by simp⟩, ⟨⟨by decide, by simp⟩, h2⟩⟩
+    have h4 := tidy_bound_append l _ h3
+    simp only [postText, List.cons_append, List.append_assoc, List.singleton_append, tidy, Bool.and_eq_true]
+    exact ⟨⟨by decide, by simp⟩, h4⟩
+  | index l => simp [okPost] at hp
+
 /-- expressions of the fragment: identifiers as variables and fields, prefix operators anywhere -/
 def frag : Dqe → Bool
   | .var n => isIdentB n
   | .field e f => frag e && isIdentB f
+  | .slice e l r => frag e && okPost (.slice l r)
   | .deref e | .address e | .canonic e => frag e
   | _ => false
 
@@ -324,6 +262,14 @@ theorem tidy_print (e : Dqe) (he : frag e = true) (t : Str) (ht : tidy t = true)
       exact ⟨⟨by decide, by simp⟩, this⟩
     have := (ih he.1 ('.' :: f ++ t) h1 (by simp [followPost])).1
     simp only [printPost, printPre, List.append_assoc]
+    exact ⟨this, this⟩
+  | slice e l r ih =>
+    simp only [frag, Bool.and_eq_true] at he
+    have h1 := tidy_postText (.slice l r) he.2 t ht hf
+    have hfo : followPost (postText (.slice l r) ++ t) = true := by simp [postText, followPost]
+    have := (ih he.1 _ h1 hfo).1
+    simp only [postText, List.cons_append, List.append_assoc, List.singleton_append] at this
+    simp only [printPost, printPre, List.cons_append, List.append_assoc, List.singleton_append]
     exact ⟨this, this⟩
   | deref e ih | address e ih | canonic e ih =>
     simp only [frag] at he
@@ -346,15 +292,14 @@ theorem tidy_dropWhile (p : Char → Bool) (s : Str) (h : tidy s = true) : tidy 
     · exact ih h.2
     · simp [tidy, h.1.1, h.1.2, h.2]
 
-theorem tidy_fieldsText (fs : List Str) (rest : Str) (hfs : fs.all isIdentB = true) (hr : tidy rest = true) :
-    tidy (fieldsText fs ++ rest) = true := by
+theorem tidy_fieldsText (fs : List Post) (rest : Str) (hfs : fs.all okPost = true) (hr : tidy rest = true)
+    (hf : followPost rest = true) : tidy (fieldsText fs ++ rest) = true := by
   induction fs with
   | nil => simpa [fieldsText] using hr
   | cons f fs ih =>
     simp only [List.all_cons, Bool.and_eq_true] at hfs
-    have := tidy_ident_append f (fieldsText fs ++ rest) (isIdentB_all f hfs.1) (ih hfs.2)
-    simp only [fieldsText, List.cons_append, List.append_assoc, tidy, Bool.and_eq_true]
-    exact ⟨⟨by decide, by simp⟩, this⟩
+    have := tidy_postText f hfs.1 (fieldsText fs ++ rest) (ih hfs.2) (followPost_fieldsText fs rest hf)
+    simpa [fieldsText] using this
 
 theorem hexTok_fail (r : Str) (h : followPost r = true) : hexTok r = .fail := by
   cases r with
@@ -403,6 +348,7 @@ theorem rustIdent_paren (u : Str) : rustIdent ('(' :: u) = none := by
 
 def size : Dqe → Nat
   | .field e _ => size e + 1
+  | .slice e _ _ => size e + 1
   | .deref e | .address e | .canonic e => size e + 1
   | _ => 1
 
@@ -414,7 +360,7 @@ theorem pre_notWs (p : Pre) : isWs p.char = false := by cases p <;> decide
 
 /-- both positions at once: `e` in postfix position followed by further fields, and `e` in prefix position -/
 def RT (e : Dqe) : Prop :=
-  (∀ (fs : List Str) (rest : Str) (f : Nat), fs.all isIdentB = true → followExpr rest = true → tidy rest = true → size e ≤ f →
+  (∀ (fs : List Post) (rest : Str) (f : Nat), fs.all okPost = true → followExpr rest = true → tidy rest = true → size e ≤ f →
       parseExpr (f + 1) (printPost e ++ fieldsText fs ++ rest) = .ok (chain e fs) rest) ∧
   (∀ (rest : Str) (f : Nat), followExpr rest = true → tidy rest = true → size e ≤ f →
       parseExpr (f + 1) (printPre e ++ rest) = .ok e rest)
@@ -431,7 +377,7 @@ theorem rt_pre (p : Pre) (e : Dqe) (he : frag e = true) (ih : RT e) : RT (p.appl
   rw [hsize] at hf
   obtain ⟨f', rfl⟩ : ∃ f', f = f' + 1 := ⟨f - 1, by omega⟩
   -- the text: "(" p printPre e ")" fields rest
-  have htail_t : tidy (fieldsText fs ++ rest) = true := tidy_fieldsText fs rest hfs ht
+  have htail_t : tidy (fieldsText fs ++ rest) = true := tidy_fieldsText fs rest hfs ht (followExpr_post rest hr)
   have htail_f : followPost (fieldsText fs ++ rest) = true := followPost_fieldsText fs rest (followExpr_post rest hr)
   have hclose_t : tidy (')' :: (fieldsText fs ++ rest)) = true := by
     simp only [tidy, Bool.and_eq_true]; exact ⟨⟨by decide, by simp [htail_f]⟩, htail_t⟩
@@ -459,7 +405,7 @@ theorem roundtrip (e : Dqe) (he : frag e = true) : RT e := by
   induction e with
   | var n =>
     have hn : isIdentB n = true := by simpa [frag] using he
-    have hA : ∀ (fs : List Str) (rest : Str) (f : Nat), fs.all isIdentB = true → followExpr rest = true → tidy rest = true →
+    have hA : ∀ (fs : List Post) (rest : Str) (f : Nat), fs.all okPost = true → followExpr rest = true → tidy rest = true →
         size (Dqe.var n) ≤ f → parseExpr (f + 1) (printPost (.var n) ++ fieldsText fs ++ rest) = .ok (chain (.var n) fs) rest := by
       intro fs rest f hfs hr _ _
       simpa [printPost] using parseExpr_chain f n fs rest hn hfs hr
@@ -468,11 +414,21 @@ theorem roundtrip (e : Dqe) (he : frag e = true) : RT e := by
     simpa [printPost, printPre, fieldsText, chain] using this
   | field e g ih =>
     simp only [frag, Bool.and_eq_true] at he
-    have hA : ∀ (fs : List Str) (rest : Str) (f : Nat), fs.all isIdentB = true → followExpr rest = true → tidy rest = true →
+    have hA : ∀ (fs : List Post) (rest : Str) (f : Nat), fs.all okPost = true → followExpr rest = true → tidy rest = true →
         size (Dqe.field e g) ≤ f → parseExpr (f + 1) (printPost (.field e g) ++ fieldsText fs ++ rest) = .ok (chain (.field e g) fs) rest := by
       intro fs rest f hfs hr ht hf
-      have := (ih he.1).1 (g :: fs) rest f (by simp [he.2, hfs]) hr ht (by simp [size] at hf; omega)
-      simpa [printPost, fieldsText, chain] using this
+      have := (ih he.1).1 (.field g :: fs) rest f (by simp [he.2, hfs, okPost]) hr ht (by simp [size] at hf; omega)
+      simpa [printPost, fieldsText, postText, chain, Post.apply] using this
+    refine ⟨hA, fun rest f hr ht hf => ?_⟩
+    have := hA [] rest f rfl hr ht hf
+    simpa [printPost, printPre, fieldsText, chain] using this
+  | slice e l r ih =>
+    simp only [frag, Bool.and_eq_true] at he
+    have hA : ∀ (fs : List Post) (rest : Str) (f : Nat), fs.all okPost = true → followExpr rest = true → tidy rest = true →
+        size (Dqe.slice e l r) ≤ f → parseExpr (f + 1) (printPost (.slice e l r) ++ fieldsText fs ++ rest) = .ok (chain (.slice e l r) fs) rest := by
+      intro fs rest f hfs hr ht hf
+      have := (ih he.1).1 (.slice l r :: fs) rest f (by simp [he.2, hfs]) hr ht (by simp [size] at hf; omega)
+      simpa [printPost, fieldsText, postText, chain, Post.apply] using this
     refine ⟨hA, fun rest f hr ht hf => ?_⟩
     have := hA [] rest f rfl hr ht hf
     simpa [printPost, printPre, fieldsText, chain] using this
@@ -487,6 +443,10 @@ theorem size_le_print (e : Dqe) (he : frag e = true) : size e ≤ (printPre e).l
     obtain ⟨c, cs, rfl, _⟩ := ident_head n (by simpa [frag] using he)
     simp [size, printPre, printPost]
   | field e g ih =>
+    simp only [frag, Bool.and_eq_true] at he
+    have := ih he.1
+    simp [size, printPre, printPost]; omega
+  | slice e l r ih =>
     simp only [frag, Bool.and_eq_true] at he
     have := ih he.1
     simp [size, printPre, printPost]; omega
